@@ -610,6 +610,8 @@ def apply_model(interp, st, t, b, record):
         ob("split_to", (t.get("sn") or nm)[:90], ok, "n %s <= len %s" % (interp._show_term(st, n) if n else "?", _rng(interp, st, lt) if lt else "?"))
         if record and n:
             interp.consumed[b] = n[1] if n[0] == "0" else st.z.lo(n[0])
+            if interp.consumed[b] != -INF and interp.consumed[b] >= 1 and not nm.endswith("split_off"):
+                interp.progress.add(b)      # at least one byte leaves the input buffer: a loop around this makes progress
         dt = fresh_dest()
         if lt:
             if n and n[0] != "0" and dt and nm.endswith("split_to"):
